@@ -1,0 +1,5 @@
+//go:build !verif
+
+package column
+
+func verifYield(point string, txn *Txn, chunk uint32) {}
